@@ -12,18 +12,18 @@ RULE = ('cases = seeded random 2-4-stack J1939-21 scenarios (1-12 messages, leng
 ASSUMPTIONS = ['virtual-time engine schedules one thread at a time; frame handlers are not pre-empted (C08 covers pre-emption)',
                'protocol PGNs (PF EA/EB/EC/EE) are not used as application PGNs',
                'PGNs are compared with PS cleared for PDU1 (DESIGN.md PGN*)']
-MIN_OBS = {'multipacket_accepted': {'quick': 200, 'thorough': 3000}, 'deliveries_compared': {'quick': 1000, 'thorough': 10000},
-           'zero_latency_cases': {'quick': 20, 'thorough': 100}, 'eom_notifications': 10, 'messages_refused': 1}
+MIN_OBS = {'multipacket_accepted': {'quick': 2500, 'thorough': 25000}, 'deliveries_compared': {'quick': 10000, 'thorough': 100000},
+           'zero_latency_cases': {'quick': 300, 'thorough': 3000}, 'eom_notifications': 1000, 'messages_refused': 100}
 
 
 def cases(tier, seed):
     rng = random.Random(1000 + seed)
     out = []
-    n = 320 if tier == 'quick' else 6000
+    n = 1200 if tier == 'quick' else 12000
     for i in range(n):
         out.append(dict(kind='random', seed=rng.randrange(1 << 30)))
     # same-pair collisions: many messages between two stacks at one instant
-    for i in range(20 if tier == 'quick' else 200):
+    for i in range(60 if tier == 'quick' else 400):
         out.append(dict(kind='collide', seed=rng.randrange(1 << 30), n=2, count=rng.randint(4, 10), modes=['p2p', 'bam2', 'bam1'],
                         lengths=[9, 15, 30, 100, 400]))
     if tier == 'thorough':
